@@ -143,7 +143,7 @@ def _run_shard(args):
   return ('ok', idx)
 
 
-def model_mismatches(name, imports, run_fn, cases, shard=400):
+def model_mismatches(name, imports, run_fn, cases, shard=100):
   """cases: list of (coq_input_text, python_observation).  Evaluates
   `Lib.Out.mismatches run_fn cases` with vm_compute inside coqc, in shards.
   Returns (list of mismatching global indices, list of shard errors)."""
